@@ -269,7 +269,7 @@ def subs(tier: str):
     q = tier == "quick"
     return [
         Sub("exhaustive-012", check, "exhaustive", cases=_exhaustive, exhaustive_flag=True),
-        Sub("random", check, "hypothesis", strategy=lambda: _random(7 if q else 12, 4 if q else 8), examples=30 if q else 2000),
+        Sub("random", check, "hypothesis", strategy=lambda: _random(7 if q else 12, 4 if q else 8), examples=60 if q else 2000),
         Sub("totals-beyond-32768", check_huge, "exhaustive", cases=_huge_cases, exhaustive_flag=False),
-        Sub("member-edit-histories", check_history, "hypothesis", strategy=lambda: _histories(5 if q else 8, 3 if q else 5), examples=40 if q else 3000),
+        Sub("member-edit-histories", check_history, "hypothesis", strategy=lambda: _histories(5 if q else 8, 3 if q else 5), examples=80 if q else 3000),
     ]
